@@ -49,6 +49,54 @@ func c15QuickShapes() []c15Shape {
 	}
 }
 
+// c15ChainShapes: header blocks of three and four fragments (HEADERS + 2..3
+// CONTINUATION frames) in the request header block, the response header block,
+// the trailers and the trailers-only block, alone and combined, named and not.
+func c15ChainShapes(thorough bool) []c15Shape {
+	out := []c15Shape{
+		{Named: true, Cont: true, ContN: 2, NReq: 1, NResp: 1},
+		{Named: true, Cont: true, ContN: 3, NReq: 0, Resp: 1, RespCont: true, RespContN: 2},
+		{Named: true, NReq: 1, NResp: 1, RespHdrCont: 2, RespCont: true, RespContN: 3},
+		{Named: true, NReq: 1, ReqEnd: 1, NResp: 0, Bidi: true, RespHdrCont: 3},
+		{Named: true, Cont: true, ContN: 2, NReq: 1, NResp: 1, RespCont: true, RespContN: 2, Variant: "refused-retry"},
+		{Named: false, Cont: true, ContN: 2, NReq: 1, NResp: 1, RespHdrCont: 2, RespCont: true, RespContN: 2},
+	}
+	if thorough {
+		for n := 2; n <= 3; n++ {
+			out = append(out,
+				c15Shape{Named: true, Cont: true, ContN: n, NReq: 0, NResp: 1},
+				c15Shape{Named: true, Cont: true, ContN: n, NReq: 2, ReqEnd: 1, NResp: 0},
+				c15Shape{Named: true, NReq: 1, NResp: 1, RespHdrCont: n},
+				c15Shape{Named: true, NReq: 1, NResp: 2, RespCont: true, RespContN: n},
+				c15Shape{Named: true, NReq: 1, Resp: 1, RespCont: true, RespContN: n},
+				c15Shape{Named: true, Cont: true, ContN: n, NReq: 1, NResp: 1, RespHdrCont: 5 - n, RespCont: true, RespContN: n},
+				c15Shape{Named: true, Cont: true, ContN: n, NReq: 1, Variant: "rstc-early"},
+				c15Shape{Named: true, NReq: 1, NResp: 1, RespHdrCont: n, Variant: "rsts-mid"},
+				c15Shape{Named: true, NReq: 1, NResp: 1, Bidi: true, RespHdrCont: n, Variant: "rstc-mid"},
+				c15Shape{Named: true, Cont: true, ContN: n, NReq: 1, Variant: "goaway"},
+			)
+		}
+		out = append(out,
+			c15Shape{Named: true, Cont: true, ContN: 3, NReq: 1, Resp: 1, Variant: "refused-retry"},
+			c15Shape{Named: false, Cont: true, ContN: 3, NReq: 0, Resp: 1, RespCont: true, RespContN: 3},
+		)
+	}
+	return out
+}
+
+// c15ChainPartners: the calls a chain shape shares the connection with (besides
+// every chain shape): single-frame blocks, HEADERS + one CONTINUATION on either
+// side, a reset, a call without test name.
+func c15ChainPartners() []c15Shape {
+	return []c15Shape{
+		{Named: true, NReq: 1, NResp: 1},
+		{Named: true, Cont: true, NReq: 1, ReqEnd: 1, NResp: 0},
+		{Named: true, NReq: 1, NResp: 0, RespCont: true},
+		{Named: true, NReq: 1, NResp: 1, Variant: "rsts-mid"},
+		{Named: false, NReq: 1, NResp: 1},
+	}
+}
+
 // c15MiniShapes: pairs of these get every single cut under every interleaving (thorough).
 func c15MiniShapes() []c15Shape {
 	return []c15Shape{
@@ -146,6 +194,22 @@ func c15Pairs(thorough bool) []c15Pair {
 			add(a, b)
 		}
 	}
+	// header blocks of 3 and 4 fragments: every chain shape with every partner (both
+	// orders); the quick chain shapes with each other, the thorough-only ones with two of them
+	qc := c15ChainShapes(false)
+	for xi, x := range c15ChainShapes(thorough) {
+		for _, y := range c15ChainPartners() {
+			add(x, y)
+			add(y, x)
+		}
+		if xi >= len(qc) { // thorough-only shape: two chains on one connection with two of the quick chain shapes
+			qc = qc[:2]
+		}
+		for _, y := range qc {
+			add(x, y)
+			add(y, x)
+		}
+	}
 	if thorough {
 		t := c15ThoroughShapes()
 		for _, x := range t {
@@ -161,10 +225,11 @@ func c15Pairs(thorough bool) []c15Pair {
 // ---------------------------------------------------------------------------
 
 type c15Built struct {
-	shapes         []c15Shape
-	a, b           []c15Item
-	wants          []c15Want
-	contReq, contR bool
+	shapes           []c15Shape
+	a, b             []c15Item
+	wants            []c15Want
+	contReq, contR   bool
+	chainReq, chainR bool // a header block of >= 3 fragments in that direction
 }
 
 func c15Build(p c15Pair) *c15Built {
@@ -176,6 +241,9 @@ func c15Build(p c15Pair) *c15Built {
 	r1, s1 := c15HasCont(bt.a)
 	r2, s2 := c15HasCont(bt.b)
 	bt.contReq, bt.contR = r1 || r2, s1 || s2
+	r1, s1 = c15HasChain(bt.a)
+	r2, s2 = c15HasChain(bt.b)
+	bt.chainReq, bt.chainR = r1 || r2, s1 || s2
 	return bt
 }
 
@@ -206,6 +274,11 @@ func c15AttrVerdicts(res *c15Result, bt *c15Built) []c15Verdict {
 		return append(out, c15Verdict{"panic:" + res.Panic, "panic on well-formed traffic: " + res.PanicVal})
 	}
 	if res.BrokenReq || res.BrokenResp {
+		if (res.BrokenReq && bt.chainReq) || (res.BrokenResp && bt.chainR) {
+			return append(out, c15Verdict{"continuation-chain-lost", fmt.Sprintf(
+				"the frame tracer gave up on well-formed traffic that contains a header block of three or more fragments (HEADERS + 2..3 CONTINUATION; request direction gave up=%v, response direction=%v); %d trace(s) delivered instead of those of the named calls",
+				res.BrokenReq, res.BrokenResp, len(res.Traces))})
+		}
 		if (res.BrokenReq && bt.contReq) || (res.BrokenResp && bt.contR) {
 			return append(out, c15Verdict{"continuation-lost", fmt.Sprintf(
 				"the frame tracer gave up on well-formed traffic that contains a HEADERS+CONTINUATION header block (request direction gave up=%v, response direction=%v); %d trace(s) delivered instead of those of the named calls",
@@ -429,6 +502,9 @@ func TestVerifC15Attr(t *testing.T) {
 			}
 		}
 		fmt.Printf("C15 COUNT pairs=%d interleavings=%d frame-slots=%d max-per-pair=%d\n", len(pairs), total, units, maxN)
+		r.Count("count-only:interleavings", total)
+		r.Count("count-only:frame-slots", units)
+		r.Count("count-only:max-per-pair", maxN)
 		r.Eval(1)
 		return
 	}
@@ -441,7 +517,7 @@ func TestVerifC15Attr(t *testing.T) {
 			x.pair(pi, p, thorough, mini[p.A.String()+"|"+p.B.String()])
 		})
 	}
-	r.Extra["bound"] = fmt.Sprintf("two calls per connection; call shapes: %d quick / %d thorough (0-2 DATA frames per direction, optional CONTINUATION, END_STREAM on last frame or on an empty DATA, trailers or trailers-only, RST_STREAM by either side early/mid, REFUSED_STREAM+retry, GOAWAY(last-stream-id 1), no test name); all interleavings; every single cut only for the first/middle/last interleaving of a pair (thorough: all interleavings for %d mini shapes squared)", len(c15QuickShapes()), len(c15ThoroughShapes()), len(c15MiniShapes()))
+	r.Extra["bound"] = fmt.Sprintf("two calls per connection; call shapes: %d quick / %d thorough (0-2 DATA frames per direction, request / response / trailer header blocks of 1-2 fragments, and %d quick / %d thorough chain shapes with blocks of 3-4 fragments (HEADERS + 2..3 CONTINUATION) paired with %d partner shapes and each other, END_STREAM on last frame or on an empty DATA, trailers or trailers-only, RST_STREAM by either side early/mid, REFUSED_STREAM+retry, GOAWAY(last-stream-id 1), no test name); all interleavings; every single cut only for the first/middle/last interleaving of a pair (thorough: all interleavings for %d mini shapes squared)", len(c15QuickShapes()), len(c15ThoroughShapes()), len(c15ChainShapes(false)), len(c15ChainShapes(true)), len(c15ChainPartners()), len(c15MiniShapes()))
 }
 
 func c15ReplayAttr(t *testing.T, r *rep.Report, in []byte) {
